@@ -94,6 +94,8 @@ func c08Inspect(content string) (kind string, hook *string, err error) {
 	return kind, hook, nil
 }
 
+func yamlUnmarshal(b []byte, v interface{}) error { return yaml.Unmarshal(b, v) }
+
 func c08Place(hook *string) string {
 	if hook == nil {
 		return "generic"
@@ -135,6 +137,8 @@ func (*c08) Oracle(ci, oi any) []hx.Violation {
 		return c08OracleSplit(c, obs)
 	case "sort", "render":
 		return c08OracleSort(c, obs)
+	case "uninstall":
+		return c08OracleUninstall(c, obs)
 	case "barrier":
 		return c08OracleBarrier(c, obs)
 	}
